@@ -11,7 +11,9 @@ spec/SigCheck.tla; driver harness/cmd/vd-sig (txsig).
              Verdict must equal the spec on every row where the declarative and the loosest reading agree; where they
              differ (a good signature hidden behind a bad one) either verdict is allowed.  For accepted transactions
              tx.SignedAddr, and Transaction.GetSignatureAddresses on an unvalidated copy, must be exactly the set of
-             entry addresses, recomputed here as ripemd160(sha256(program)).
+             entry addresses, recomputed here as ripemd160(sha256(program)).  The verdict may not depend on what ran on
+             the object before: every row is also validated AFTER GetSignatureAddresses on the same object (the order the
+             transaction pool uses: isValidSender, then the stateless validator) and validated a second time.
      Domains: "entry" = all single-entry transactions over 2 (quick) / 3 (thorough) keys: key lists of length 0..3 with
              repeats, m in {0,1,n,n+1}, signature lists of length 0..3 over {invalid, each key, an unlisted key};
              "multi" = all lists of 0, 2, 3 entries over 8 representative entries; "boundary" = 16 / 17 keys, 16 / 17 entries.
@@ -58,6 +60,13 @@ def run(ctx):
                 kind = "accepted-but-spec-rejects" if o["acc"] else "rejected-but-spec-accepts"
                 _viol(ctx, "txsig:%s:%s" % (kind, cls), {"row": r, "got": o}, replay={"kind": "c39-row", "row": r})
                 continue
+            for fld, what in (("accAfterLookup", "after-address-lookup"), ("accAgain", "on-revalidation")):
+                if fld in o and o[fld] != o["acc"]:
+                    kind = "accepted" if o[fld] else "rejected"
+                    _viol(ctx, "txsig:verdict-changes-%s:%s:%s" % (what, kind, cls), {"row": r, "got": o},
+                          replay={"kind": "c39-row", "row": r})
+            if o.get("accAfterLookup") and o.get("signedAfterLookup") != o["expected"]:
+                _viol(ctx, "txsig:signed-addresses-differ-after-lookup:%s" % cls, {"row": r, "got": o}, replay={"kind": "c39-row", "row": r})
             if o["acc"]:
                 if o["signed"] != o["expected"]:
                     _viol(ctx, "txsig:signed-addresses-differ:%s" % cls, {"row": r, "got": o}, replay={"kind": "c39-row", "row": r})
